@@ -35,9 +35,9 @@ func monC05(c *drv.Ctx) {
 		case 0:
 			return writerOpts{}
 		case 1:
-			return writerOpts{failAt: 1, failMode: cs.R.Intn(3)}
+			return writerOpts{failAt: 1, failMode: cs.R.Intn(3), failErr: cs.R.Intn(5)}
 		case 2:
-			return writerOpts{failAt: 2, failMode: cs.R.Intn(3)}
+			return writerOpts{failAt: 2, failMode: cs.R.Intn(3), failErr: cs.R.Intn(5)}
 		}
 		return writerOpts{bytesWriter: true, initClass: k - 3, initLen: []int{0, 1, 100, 4095, 4096, 5000}[cs.R.Intn(6)]}
 	}
@@ -57,7 +57,7 @@ func monC05(c *drv.Ctx) {
 				ops = append(ops, wOp{Kind: wMalloc, N: 1}, wOp{Kind: wFlush}, wOp{Kind: wWriteBinary, N: 1}, wOp{Kind: wFlush})
 			}
 			o := cfg(cs, k)
-			cs.Desc = M{"ops": wOpsString(ops), "bytes_writer": o.bytesWriter, "init_class": o.initClass, "init_len": o.initLen, "sink_fail_at": o.failAt, "sink_fail_mode": o.failMode}
+			cs.Desc = M{"ops": wOpsString(ops), "bytes_writer": o.bytesWriter, "init_class": o.initClass, "init_len": o.initLen, "sink_fail_at": o.failAt, "sink_fail_mode": o.failMode, "sink_error": o.failErr}
 			nt := runWriterHistory(cs, ops, o)
 			cs.Count(nt, wOpsString(ops), k, o.initLen)
 			if nt && cs.WantSample() && cs.Idx%1201 == 2 {
@@ -91,14 +91,38 @@ func monC05(c *drv.Ctx) {
 			}
 			o.failAt = 1 + r.Intn(nf+1)
 			o.failMode = r.Intn(3)
+			o.failErr = r.Intn(5)
 		}
-		cs.Desc = M{"ops": wOpsString(ops), "bytes_writer": o.bytesWriter, "init_class": o.initClass, "init_len": o.initLen, "sink_fail_at": o.failAt, "sink_fail_mode": o.failMode}
+		cs.Desc = M{"ops": wOpsString(ops), "bytes_writer": o.bytesWriter, "init_class": o.initClass, "init_len": o.initLen, "sink_fail_at": o.failAt, "sink_fail_mode": o.failMode, "sink_error": o.failErr}
 		nt := runWriterHistory(cs, ops, o)
 		cs.Count(nt, wOpsString(ops), o)
 		if nt && cs.WantSample() && n < 10 && cs.Idx%173 == 1 {
 			cs.Sample(cs.Desc)
 		}
 	})
+	// very large payloads, also as the very first operation on a fresh or just-flushed writer
+	bigs := []int{65535, 65536, 65537, 131072, 200000, 1 << 20}
+	c.Stage("big-writes", int64(len(bigs)*3*5), true, func(cs *drv.Case) {
+		n := bigs[cs.Idx%int64(len(bigs))]
+		kind := int(cs.Idx/int64(len(bigs))) % 3
+		k := int(cs.Idx / int64(len(bigs)*3))
+		big := wOp{Kind: wWriteBinary, N: n}
+		if kind == 1 {
+			big = wOp{Kind: wMalloc, N: n}
+		} else if kind == 2 {
+			big = wOp{Kind: wMalloc, N: n, Lazy: true}
+		}
+		ops := []wOp{big, {Kind: wMalloc, N: 4}, {Kind: wWriteBinary, N: 3}, {Kind: wFlush}, big, {Kind: wWriteBinary, N: 1}, {Kind: wFlush}, {Kind: wMalloc, N: 9}, big, {Kind: wFlush}}
+		o := writerOpts{}
+		if k > 0 {
+			o = writerOpts{bytesWriter: true, initClass: k - 1, initLen: []int{0, 0, 5, 4096}[k-1]}
+		}
+		cs.Desc = M{"ops": wOpsString(ops), "bytes_writer": o.bytesWriter, "init_class": o.initClass}
+		runWriterHistory(cs, ops, o)
+		cs.Count(true, "big", n, kind, k)
+		cs.C.Obs("big-write cases", 1)
+	})
+
 	// sink failing at every k for histories with many flushes
 	c.Stage("fail-at-every-k", c.Pick(300, 20000), false, func(cs *drv.Case) {
 		r := cs.R
@@ -115,7 +139,7 @@ func monC05(c *drv.Ctx) {
 			}
 		}
 		for k := 1; k <= total+1; k++ {
-			o := writerOpts{failAt: k, failMode: k % 3}
+			o := writerOpts{failAt: k, failMode: k % 3, failErr: (k / 3) % 5}
 			cs.Desc = M{"ops": wOpsString(ops), "sink_fail_at": k}
 			runWriterHistory(cs, ops, o)
 		}
